@@ -567,7 +567,8 @@ func runCase(c Case) (res pbt.Result) {
 	deadline := time.Now().Add(pbt.Wait(10 * time.Second))
 	for in.S.GetStats()["data_chan_len"] > 0 {
 		if time.Now().After(deadline) {
-			res.Add(pbt.D("not-consumed", "input queue not drained after 10s for %s", q))
+			// slowness is not a violation of C15 (the run guards bound the work, not the time): no verdict
+			res.Class("no-verdict:slow")
 			return
 		}
 		time.Sleep(20 * time.Microsecond)
